@@ -33,6 +33,8 @@ func withW(over map[string]int) map[string]int {
 
 var profiles = map[string]*Profile{
 	"full": {Name: "full", MaxConns: 6, MaxSess: 3, Len: 80, W: baseW, StepPct: 80, SnapPct: 10},
+	"C14": {Name: "C14", MaxConns: 8, MaxSess: 2, Len: 90, StepPct: 85, SnapPct: 2,
+		W: map[string]int{"connect": 4, "disconnect": 2, "join": 12, "custom": 60, "entity_add": 2, "tick": 1, "step": 4, "unknown": 1}},
 	"C18": {Name: "C18", MaxConns: 4, MaxSess: 2, Len: 120, StepPct: 90, SnapPct: 2,
 		W: map[string]int{"connect": 2, "disconnect": 1, "join": 6, "latency": 12, "ping_resp": 60, "ping": 3, "entity_add": 2, "tick": 1, "step": 3}},
 }
